@@ -183,6 +183,12 @@ var c11Ops = []c11Op{
 		h := sha1.Sum(b.Bytes())
 		return fmt.Sprintf("%d bytes %x", b.Len(), h[:6])
 	}},
+	// an unknown field on an interface and on unions whose possible types are not declared in name order
+	{"validate-unknown-field-on-abstract", c11Validate(`{ node(id: 1) { nope } search { nope } named { nick } trio { zz ... on Node { idd } } }`)},
+	// input objects that carry __typename (a result sent back as input), nested
+	{"coerce-typename-keys", c11Coerce(func() map[string]any {
+		return map[string]any{"f": map[string]any{"req": true, "__typename": "Filter", "sub": map[string]any{"req": false, "__typename": "Filter"}}}
+	})},
 }
 
 func c11Load() *ast.Schema {
